@@ -4,6 +4,7 @@
 //! trusted: R15 (deep slices): FundedChannel::on_startup_drop_completed_blocked_mon_updates_through (the retain closure body, log statement removed R3), ChannelManager::from_channel_manager_data (the expression of the close update's id; the test that matches a manager HTLC against the monitor's outbound HTLCs), reconcile_pending_htlcs_with_monitor (the body of the closure that decides which held forwards / intercepted HTLCs are purged), verbatim as functions; PendingUpdate / HTLCSource are skeletons; HTLCSource equality is structural
 //! trusted: R15/R18 (deep slices of the function-local macro handle_in_flight_updates!): the predicate of the `.filter` that counts completed in-flight updates (the statement that tracks the maximum id is dropped) and the `replay` predicate of the `.retain`; the pushes of the background events and the bookkeeping around them are dropped and not claimed
 //! trusted: R15 (deep slices): process_background_events: the match that acts on one background event (R5: the manager is a stub whose three callees record their arguments in a ghost log; `&self` written `&mut self`) and the empty / non-empty result; PersistenceNotifierGuard::optionally_notify: the match that combines the operation's and the background events' notification, verbatim; handle_post_event_actions: the statements of the ReleasePaymentComplete arm that advance the closed channel's update id, build the update and test whether start-up is finished (ChannelMonitorUpdate instantiated as the skeleton PostCloseUpdate, R5); BackgroundEvent and NotifyOption are extracted (PublicKey, ChannelId, OutPoint, ChannelMonitorUpdate skeletons)
+//! trusted: R15 (deep slices) of from_channel_manager_data, stale-manager branch: the loop body that queues the HTLCs force_shutdown handed back, the `if !found_htlc` block (the logger statements in front of the push are dropped) and the value the closed channel's update-id entry takes (`and_modify` closure body and `or_insert` argument; the HashMap entry chain is dropped), verbatim as functions
 //! assume: nothing here decides the crash-point quantifier of C10 (every prefix of the sequence of durable writes): that is a whole-history statement outside function contracts; only the listed statements of the recovery path are decided
 use vstd::prelude::*;
 verus! {
@@ -183,6 +184,60 @@ impl StartUp {
     (_, NotifyOption::DoPersist) => NotifyOption::DoPersist,
 //@with
     (_, NotifyOption::DoPersist) => NotifyOption::SkipPersistHandleEvents,
+//@end
+}
+// ---- the stale manager's channel is closed: what it hands back is failed, what the monitor no longer has is failed, the id counter never goes back ----
+pub mod stale_close {
+use vstd::prelude::*;
+use vstd::std_specs::cmp::*;
+use core::cmp;
+pub assume_specification<T: core::cmp::Ord>[core::cmp::max::<T>](a: T, b: T) -> (r: T)
+    ensures T::obeys_cmp_spec() ==> r == (if b.cmp_spec(&a) == core::cmp::Ordering::Less { a } else { b });
+pub assume_specification<T: core::cmp::Ord>[core::cmp::min::<T>](a: T, b: T) -> (r: T)
+    ensures T::obeys_cmp_spec() ==> r == (if b.cmp_spec(&a) == core::cmp::Ordering::Less { b } else { a });
+#[derive(Clone, Copy)] pub struct PaymentHash(pub [u8; 32]);
+#[derive(Clone, Copy)] pub struct PublicKey { pub id: u64 }
+#[derive(Clone, Copy)] pub struct ChannelId { pub id: u64 }
+pub struct HTLCSource { pub id: u64 }
+impl Clone for HTLCSource { #[verifier::external_body] fn clone(&self) -> (r: HTLCSource) ensures r == *self { unimplemented!() } }
+pub enum LocalHTLCFailureReason { ChannelClosed, Other }
+pub struct Extra {}
+pub struct Ctx { pub cp: PublicKey, pub id: ChannelId }
+impl Ctx {
+    #[verifier::external_body] pub fn get_counterparty_node_id(&self) -> (r: PublicKey) ensures r == self.cp { unimplemented!() }
+    #[verifier::external_body] pub fn channel_id(&self) -> (r: ChannelId) ensures r == self.id { unimplemented!() }
+}
+pub struct Chan { pub context: Ctx }
+//@extract lightning/src/ln/channelmanager.rs :: impl ChannelManager :: fn from_channel_manager_data
+//@slice R15
+    for (source, hash, cp_id, chan_id) in shutdown_result.dropped_outbound_htlcs { $body:straight } channel_closures.push_back
+//@with
+    fn fail_htlc_the_closed_channel_handed_back(source: HTLCSource, hash: PaymentHash, cp_id: PublicKey, chan_id: ChannelId, failed_htlcs: &mut Vec<(HTLCSource, PaymentHash, PublicKey, ChannelId, LocalHTLCFailureReason, Option<Extra>)>) { $body }
+//@ensures P C10 every-outbound-htlc-the-force-closed-channel-of-a-stale-manager-hands-back-is-queued-to-be-failed
+    final(failed_htlcs)@ == old(failed_htlcs)@.push((source, hash, cp_id, chan_id, LocalHTLCFailureReason::ChannelClosed, None)),
+//@end
+//@extract lightning/src/ln/channelmanager.rs :: impl ChannelManager :: fn from_channel_manager_data
+//@slice R15
+    if !found_htlc { $pre:any failed_htlcs.push($t:seq); }
+//@with
+    fn fail_htlc_the_monitor_no_longer_has(found_htlc: bool, channel: &Chan, channel_htlc_source: &HTLCSource, payment_hash: &PaymentHash, failed_htlcs: &mut Vec<(HTLCSource, PaymentHash, PublicKey, ChannelId, LocalHTLCFailureReason, Option<Extra>)>) { if !found_htlc { failed_htlcs.push($t); } }
+//@ensures P C10 an-htlc-of-the-stale-manager-that-the-newer-monitor-no-longer-has-is-queued-to-be-failed-back-and-one-the-monitor-has-is-left-to-the-monitor
+    !found_htlc ==> final(failed_htlcs)@ == old(failed_htlcs)@.push((*channel_htlc_source, *payment_hash, channel.context.cp, channel.context.id, LocalHTLCFailureReason::ChannelClosed, None)),
+    found_htlc ==> final(failed_htlcs)@ == old(failed_htlcs)@,
+//@mutant htlc_the_monitor_still_has_failed_back
+    if !found_htlc {
+//@with
+    if found_htlc {
+//@end
+//@extract lightning/src/ln/channelmanager.rs :: impl ChannelManager :: fn from_channel_manager_data
+//@slice R15
+    let latest_update_id = monitor.get_latest_update_id().saturating_add(1); update.update_id = latest_update_id; $chain:any .and_modify(|v| *v = $m:seq) .or_insert($i:seq);
+//@with
+    fn closed_channel_update_id_after_stale_close(v: &mut u64, latest_update_id: u64) -> u64 { *v = $m; $i }
+//@ret r
+//@ensures P C10 the-update-id-remembered-for-a-closed-channel-never-goes-backwards-and-covers-the-close-update
+    *final(v) >= *old(v), *final(v) >= latest_update_id, *final(v) == *old(v) || *final(v) == latest_update_id,
+    r == latest_update_id,
 //@end
 }
 pub struct MonitorStub { pub latest: u64 }
